@@ -539,6 +539,10 @@ fn empty_result(status: Status, hard: bool, hung: bool) -> WorldResult {
 /// of whether it happens to be the first world of its process - every harness process runs these
 /// throw-away worlds first.
 pub fn warm_up() {
+    if std::env::var("VERIF_NO_WARMUP").is_ok() {
+        // only for demonstrating that the determinism self-test notices the missing warm-up
+        return;
+    }
     let defs = "CREATE TABLE t(line = 'k=([a-z]+) n=(-?[0-9]+)', line[1] => k TEXT, line[2] => n INT NOT NULL, line[1], line[2] => arr TEXT[], line[2], line[2], line[2] => d TIMESTAMP); CREATE TABLE u(line = split ';', line[1] => k TEXT TRIM, line[2] => m INT DEFAULT 3, { .a.b[0] } => j REAL);";
     let statements = [
         "SELECT upper(k) AS u, n + 1, arr[1], EXTRACT(YEAR FROM d), CASE WHEN n > 1 THEN 'x' ELSE 'y' END, n::text, least(n, 2), regexp_matches(k, 'a') FROM t WHERE n > 0 AND k IN ('a', 'b') OR NOT n IS NULL",
